@@ -110,6 +110,9 @@ def isLeaf (t : Tree K V) (id : Nat) : Prop := ∃ sh, t.look id = some sh ∧ s
 /-- number of entries of node `id` is below the order (it was split-checked) -/
 def notFull (t : Tree K V) (id : Nat) : Prop := ∃ sh, t.look id = some sh ∧ sh.keys.length < t.order
 
+/-- node `id` has fewer than `order/2` entries (a Delete just made it under-full) -/
+def isSmall (t : Tree K V) (id : Nat) : Prop := ∃ sh, t.look id = some sh ∧ sh.keys.length < t.order / 2
+
 def KontOk (t : Tree K V) : Kont K V → Prop
   | .roTree _ _ => True
   | .roNode _ _ hold want =>
@@ -134,7 +137,8 @@ def KontOk (t : Tree K V) : Kont K V → Prop
   | .delChild _ frames node index left child root =>
     root = t.rootId ∧ FramesOk t root frames node ∧ FrameOk t ⟨node, index, left, child⟩
   | .delRight _ rest fr right root =>
-    root = t.rootId ∧ FramesOk t root (fr :: rest) fr.child ∧ t.kidAt fr.node (fr.index + 1) = some right
+    root = t.rootId ∧ FramesOk t root (fr :: rest) fr.child ∧ t.kidAt fr.node (fr.index + 1) = some right ∧
+    isSmall t fr.child
   | .hop cur next => ∃ sh, t.look cur = some sh ∧ sh.height = 0 ∧ sh.next = some next
   | .paused => True
 
